@@ -1,6 +1,7 @@
 import Proofs.C15.Size
 import Proofs.C15.Text
 import Proofs.C15.Sound
+import Proofs.C15.OpsCount
 /-!
 # C15 — miniscript typing, compilation, read-back and satisfaction are consistent
 
@@ -92,6 +93,14 @@ example : parseSyntax .p2wsh "l:older(9)".toList = some (.bin .or_i .f0 (.older 
 theorem compiled_script_is_ops (ctx : Ctx) (h160 : Bytes → Bytes) (n : Ms) (verify : Bool) :
     ser (opsOf ctx h160 verify n) = compile ctx h160 verify n :=
   ser_opsOf ctx h160 n verify
+
+/-- T6: the static op count of the bounds analysis (`_static_ops`: the `_LEAF_OPS` rows, `_OVERHEAD`,
+    one OP_ADD per thresh() argument, the folded VERIFY) is exactly the number of op codes above
+    OP_16 in the compiled script — what BIP141 counts before any OP_CHECKMULTISIG key — for EVERY
+    expression, both dialects, both VERIFY states. -/
+theorem static_ops_eq_script_ops (ctx : Ctx) (h160 : Bytes → Bytes) (n : Ms) (verify : Bool) :
+    countNP (opsOf ctx h160 verify n) = (info ctx n).staticOps :=
+  countNP_opsOf ctx h160 n verify
 
 /- T3 (full statement, not proved): for every well-typed `n` (all fragments, both dialects), with
    `Sat`/`Dsat` extended to every row of BIP379's satisfaction table and `exec` to every op code
